@@ -6,8 +6,8 @@ import obs
 ID = "C05"
 REQUIRES = ["Agree", "StructSpec", "Truth"]
 THEOREM_REQUIRES = ["C05"]
-THEOREMS = ["C05_holds_bool", "C05_check_sound"]
-PROOF_FILES = ["Proofs/GenInv.v", "Proofs/TypeDfs.v", "Proofs/StructProof.v", "Properties/C05.v"]
+THEOREMS = ["C05_holds", "C05_holds_bool", "C05_check_sound"]
+PROOF_FILES = ["Proofs/GenInv.v", "Proofs/TypeDfs.v", "Proofs/StructProof.v", "Proofs/C05Proof.v", "Properties/C05.v"]
 RULE = ("random type DAGs: host structs (scalars, vec2-4 of f32/i32/u32, all 9 matrix shapes, atomics, fixed arrays incl. "
         "arrays of structs, nesting <= 3, shared members, optional trailing runtime-sized array) used by globals in "
         "uniform / storage / private / workgroup space directly or through arrays, unused and function-local structs, "
